@@ -73,8 +73,12 @@ func encodeUTF8(codePoint int) []byte {
 // to remain an escape sequence in the token literal: quotes and the backslash
 // would change the structure of the string when written out raw, line
 // terminators cannot appear raw in a string literal, and a lone surrogate has
-// no UTF-8 encoding.
+// no UTF-8 encoding. Digits stay escaped because a raw digit after a preserved
+// `\0` would turn it into an octal escape.
 func mustStayEscaped(codePoint int) bool {
+	if codePoint >= '0' && codePoint <= '9' {
+		return true
+	}
 	switch codePoint {
 	case '"', '\'', '\\', '\n', '\r', 0x2028, 0x2029:
 		return true
